@@ -217,6 +217,12 @@ pub fn indep_pairs(case: &Case) -> Vec<Value> {
     let mut out = Vec::new();
     let secs: std::collections::BTreeSet<String> = case.files.iter().flatten().map(|r| r.sec.clone()).collect();
     if secs.len() < 2 {
+        // nothing to take apart, but the aggregate must still be the security's own totals
+        if ledger_segments(case).iter().all(|s| s["status"] == "ok" || s["status"] == "rejected") {
+            if let Some(r) = aggsum_record(&case.id, "independent", case, std::slice::from_ref(case)) {
+                out.push(r);
+            }
+        }
         return out;
     }
     let whole = ledger_segments(case);
